@@ -9,7 +9,41 @@ from ..gen_doc import DocGen
 # custom components whose generated-name prefix collides with Qt classes / numbered names
 COMPONENTS = {"Label1": "QLabel", "Label": "QLabel", "Widget2": "QWidget", "PushButton": "QPushButton",
               "VboxLayout1": "QWidget", "Action1": "QWidget", "Frame": "QFrame", "QLabel1": "QLabel", "Kbutton": "QPushButton",
-              "SpacerItem": "QWidget", "Label10": "QLabel", "Menu1": "QWidget"}
+              "SpacerItem": "QWidget", "Label10": "QLabel", "Menu1": "QWidget",
+              # rooted in QAction: the generated name of an anonymous instance is `separator`, the word <addaction> reserves
+              "Separator": "QAction", "Action2": "QAction"}
+
+
+CLUSTERS = [("QLabel", "Label"), ("QPushButton", "PushButton"), ("QWidget", "Widget"), ("QCheckBox", "CheckBox"), ("QLineEdit", "LineEdit"),
+            ("QFrame", "Frame")]
+
+
+def cluster_doc(rng):
+    """Many anonymous objects whose generated names compete: a Qt class, components named <Stem><digits> rooted in it, and ids that
+    look like generated names, as siblings in any order (chains of collisions: label1 taken, label2 taken, label11 ...)."""
+    from ..gen_doc import Doc, Obj
+    qcls, stem = rng.choice(CLUSTERS)
+    alikes = rng.sample([stem + x for x in ("1", "2", "3", "11", "12", "21", "")], rng.randint(2, 5))
+    comps = {a: qcls for a in alikes}
+    root = Obj("QWidget", "widget")
+    lay = Obj(rng.choice(("QVBoxLayout", "QHBoxLayout")), "layout")
+    lay.parent = root
+    root.children.append(lay)
+    pool = alikes + [qcls] * rng.randint(2, 5)
+    low = stem[:1].lower() + stem[1:]
+    taken = set()
+    for _ in range(rng.randint(4, 11)):
+        o = Obj(rng.choice(pool), "widget")
+        o.parent = lay
+        if rng.random() < 0.15:
+            cand = low + rng.choice(("", "1", "2", "3", "11", "12"))
+            if cand not in taken:
+                o.id = cand            # an id that looks like a generated name
+                taken.add(cand)
+        lay.children.append(o)
+    d = Doc(root, "Main")
+    d.print(rng)
+    return d, comps
 
 
 def make_docs(rng, n, base):
@@ -23,6 +57,8 @@ def make_docs(rng, n, base):
                    max_depth=rng.choice((3, 4, 5)), max_fanout=rng.choice((4, 6, 9)), max_objects=rng.choice((10, 25, 50)),
                    max_bindings=rng.choice((1, 2, 4)), groups=False, components=comps)
         d = g.make(type_name="Main")
+        if i % 5 == 2:
+            d, comps = cluster_doc(rng)
         d.components = comps
         d.dup_id = None
         if i % 10 == 9:
@@ -151,6 +187,13 @@ def run(tier, seed, replay=None):
                     break
                 if nm in ids:
                     v.violation("generated-name-equals-id", "anonymous %s got the name %r which is also an id" % (o.cls, nm), rp)
+                    bad = True
+                    break
+                if nm == "separator":
+                    # <addaction name="separator"/> is the .ui format's own word for "insert a separator": an object carrying that
+                    # name can never be referenced (the reference denotes no declared object)
+                    v.violation("generated-name-separator", "anonymous %s got the generated name 'separator', which <addaction> reserves: "
+                                "a reference to it denotes a menu separator, not this object" % o.cls, rp)
                     bad = True
                     break
         if bad:
